@@ -14,7 +14,9 @@ Pool == { <<>>, <<"0">>, <<"1">>, <<"-", "0">>, <<"+", "5">>, <<"0", "0", "7">>,
           <<"t", "r", "u", "e">>, <<"f", "a", "l", "s", "e">>, <<"o", "n">>, <<"o", "f", "f">>, <<"y", "e", "s">>, <<"n", "o">>,
           <<"n", "u", "l", "l">>, <<"a", "b", "c">>, <<"1", ".", "5">>, <<".", "5">>, <<"1", "e", "2">>, <<"-">>, <<"_", "1">>,
           <<"1", "_">>, <<"1", "_", "_", "0">>, <<"T", "r", "u", "e">>, <<"N", "o", "n", "e">>, <<"-", "4", "2">>,
-          <<"9", "9", "9", "9", "9", "9", "9", "9", "9", "9", "9", "9">> }
+          <<"9", "9", "9", "9", "9", "9", "9", "9", "9", "9", "9", "9">>,
+          <<"i", "n", "f">>, <<"-", "i", "n", "f">>, <<"I", "n", "f", "i", "n", "i", "t", "y">>, <<"n", "a", "n">>,
+          <<"1", "e", "9", "9", "9">>, <<"-", "1", "e", "9", "9", "9">>, <<"2", ".", "0">>, <<"0", "x", "1", "0">>, <<"1", "e", "-", "2">> }
 Short3 == UNION { [1..k -> {"0", "1", "9", "-", "_", " "}] : k \in 0..3 }
 Types == {"str", "bool", "int", "float"}
 
